@@ -19,7 +19,7 @@ ID = "C11"
 LEVEL = "exploration"
 TIERS = {
     "quick": {"segments": 400, "wall": 130, "min_budget": 90},
-    "thorough": {"segments": 16000, "wall": 1500, "min_budget": 600},
+    "thorough": {"segments": 4000, "wall": 1500, "min_budget": 600},
 }
 SEGMENT_TIMEOUT = 2400   # deep jax/TF-heavy segments on a loaded machine; a real hang still ends the worker
 SAMPLE_MAXOPS = 16
